@@ -27,8 +27,8 @@ ASSUMPTIONS = [
     'QR(L, M): 1 <= M <= L (the code calls sys.exit otherwise); QI(L): L >= 1; cost functions: even n >= 4, positive lam, dE, parameters for which the internal QR(d, m) is defined (d >= m)',
 ]
 OPEN_STATEMENTS = [
-    'lambda_norm: PROVED (lambda_norm_spec, lambda_norm_spec_flat) for every n and every real symmetric one_body / two_body: the Model of lambda_norm equals the sum of |c| over the non-identity strings of the Model of jordan_wigner(DiagonalCoulombHamiltonian) (OFV.Model.C04.jwDCH) on every exact run of the latter, all those coefficients are real, and that image acts like the Spec operator (C04 jw_dch_sound). Still open as a theorem: that this coefficient list is the Pauli decomposition in the sense of Spec.C19.jwOneNorm (orthogonality of Pauli strings under the trace); checked by the oracle jwOneNorm for n <= 5 and by the driver op c19.spec.dch_pauli_norm (hypothesis jwDCHOk + norm of the Model image) for every generated real Hamiltonian. Hermitian one_body with imaginary entries: correspondence + oracle only.',
-    'one_norm_spec (get_one_norm_int(_woconst) = 1-norm of the Jordan-Wigner coefficients for eight-fold symmetric integrals): open as a theorem; checked exactly by the Spec oracle jwOneNorm (Pauli decomposition from the Spec ladder action on all Fock states) for n_orb <= 2 (3 on a sample).',
+    'lambda_norm: CLOSED for real symmetric inputs. lambda_norm_spec (Model of lambda_norm = sum of |c| over the non-identity strings of the Model of jordan_wigner(DiagonalCoulombHamiltonian), all real, image acts like the Spec operator), pauli_decomposition_unique (trace orthogonality: the Spec oracle jwOneNorm of any fermionic operator equals the sum of |c| of any canonical Pauli form acting like it) and lambda_norm_oracle (jwOneNorm n (const + sum T a+a + sum V nn) false = some (lambda_norm)) hold for every n; the only hypothesis is the exact-run flag jwDCHOk of the Model transform, evaluated by the driver (c19.spec.dch_pauli_norm) on every generated real Hamiltonian. Hermitian one_body with imaginary entries: correspondence + oracle only (the Model of lambda_norm takes real matrices).',
+    'one_norm_spec (get_one_norm_int(_woconst) = 1-norm of the Jordan-Wigner coefficients for eight-fold symmetric integrals): open as a theorem — pauli_decomposition_unique reduces it to reading off the coefficients of the Model image jwInteractionOp of the spin-orbital Hamiltonian (identity, Z, ZZ, hopping strings with and without an extra / missing Z, four-letter strings, with all index coincidences), which is not done; checked exactly by the Spec oracle jwOneNorm (Pauli decomposition from the Spec ladder action on all Fock states) for n_orb <= 2 (3 on a sample).',
     'mu minimal: the Model computes the least mu with eps*n*2^mu >= 1 (used by discretize_spec); minimality itself is not stated as a theorem, and the implementation returns mu+1 for eps*n = 2^-k with k in {29, 31, 39, 47, 51, 55, 58, 59, 62} because math.log(x, 2) is inexact there (not a violation of the property; such inputs are not generated).',
     'cost functions: PROVED beyond total = step x iterations: cost_sparse has a positive per-step cost for all parameters and its total is monotone in lam and 1/dE (sparse_total_monotone); compute_cost: per-step cost independent of lam, dE and total monotone when the per-step cost is non-negative (thc_total_monotone); QR2 / QI2 minimise over ALL k1, k2 >= 1 for table sizes <= 2^16 (qr2_global_minimiser, qi2_global_minimiser; larger tables: searched grid only).',
     'compute_cost / cost_sparse: the number of rotation bits br (arg-min of an arccos/sin expression) and np.pi are outside the theorems (parameters / rational enclosure); the ancilla counts are covered by correspondence only. cost_estimator: no Model (irrational powers); oracle stream on its integer bookkeeping and grid minimality only.',
